@@ -104,10 +104,15 @@ class HistogramND(HistogramBase):
     ) -> HistogramBase:
         # TODO: Implement mask?
 
+        if isinstance(index, np.integer):
+            index = int(index)
         if index == slice(None) and not force_copy:
             return self
 
         axis_id = self._get_axis(axis)
+        if isinstance(index, int) and self.ndim == 1:
+            # No axis would be left: the bin itself (as in Histogram1D)
+            return self[(index,)]
         array_index: List[Union[int, slice]] = [
             slice(None, None, None) for i in range(self.ndim)
         ]
@@ -148,9 +153,11 @@ class HistogramND(HistogramBase):
         Always returns a new object.
         """
         # TODO: Enable views
-        if isinstance(index, (int, slice)):
-            return self.select(0, index)
+        if isinstance(index, (int, np.integer, slice)):
+            index = (index,)
         if isinstance(index, tuple):
+            # Numpy integers (argmax, unravel_index...) are integer indices too
+            index = tuple(int(i) if isinstance(i, np.integer) else i for i in index)
             if len(index) > self.ndim:
                 raise IndexError(
                     f"Too many indices ({len(index)}) to select from {self.ndim}D histogram"
